@@ -1304,7 +1304,15 @@ func (this *rolzCodec2) Inverse(src, dst []byte) (uint, uint, error) {
 		}
 
 		// Next chunk
-		for dstIdx < sizeChunk {
+		endLoop := sizeChunk
+
+		if endChunk == dstEnd && mm < delta {
+			// The last chunk of the encoder was shorter than the key length: it
+			// only holds first literals, the rest are the 4 last literals below
+			endLoop = mm
+		}
+
+		for dstIdx < endLoop {
 			savedIdx := dstIdx
 			var key uint32
 
@@ -1340,6 +1348,21 @@ func (this *rolzCodec2) Inverse(src, dst []byte) (uint, uint, error) {
 			// Update map
 			this.counters[key] = (this.counters[key] + 1) & this.maskChecks
 			m[this.counters[key]] = uint32(savedIdx)
+		}
+
+		// Last literals of a chunk too short for a key (emitted after the
+		// last chunk by the encoder)
+		for dstIdx < sizeChunk && dstIdx > 0 {
+			rd.setContext(_ROLZ_LITERAL_CTX, buf[dstIdx-1])
+			val := rd.decode9Bits()
+
+			if val>>8 == _ROLZ_MATCH_FLAG {
+				dstIdx += startChunk
+				return uint(srcIdx), uint(dstIdx), errors.New("ROLZX codec inverse transform failed: invalid data")
+			}
+
+			buf[dstIdx] = byte(val)
+			dstIdx++
 		}
 
 		startChunk = endChunk
